@@ -32,32 +32,22 @@ section
 variable {H : Mat} {stabs qubits : Nat → Bool} {root : Nat} {S0 : Nat → Nat → Bool}
   {syn0 : Nat → Bool} {al : Nat → Bool} {st : PeelSt}
 
-theorem add_eq (G : GraphOK H) (hst : ∀ s, stabs s = true → s < H.length)
-    (T : TreeOK H stabs qubits root S0) (I : PInv H stabs qubits S0 syn0 al st)
-    (hroot : root ∉ st.leaves) :
+theorem add_eq (st : PeelSt) :
     (((st.leaves.map (parOf H.length S0)).zip st.leaves).flatMap fun pc =>
-      if st.syn pc.2 = true then
-        (List.range (ncols H)).filter fun q => subH H stabs qubits pc.1 q && subH H stabs qubits pc.2 q
-      else []) =
+      if st.syn pc.2 = true then [firstShared H stabs qubits pc.1 pc.2] else []) =
     (st.leaves.filter st.syn).map (fun c => eOf H stabs qubits (parOf H.length S0 c) c) := by
   rw [zip_map_self, List.flatMap_map, ← flatMap_ite_singleton]
-  apply flatMap_congr'
-  intro c hc
-  simp only []
-  cases hs : st.syn c
-  · simp
-  · simp only [if_true]
-    exact (edge_spec G T (leaf_edge hst T I hroot hc)).1
+  rfl
 
 theorem peelRound_eq (G : GraphOK H) (hst : ∀ s, stabs s = true → s < H.length)
     (T : TreeOK H stabs qubits root S0) (I : PInv H stabs qubits S0 syn0 al st)
-    (hroot : root ∉ st.leaves) :
+    (hroot : root ∉ st.leaves) (hn : ncols H ≠ 0) :
     peelRound H stabs qubits st = .ok (nextSt H stabs qubits S0 st) := by
   unfold peelRound
   simp only []
   rw [parents_eq hst T I hroot]
-  rw [if_neg (by simp)]
-  rw [add_eq G hst T I hroot]
+  rw [if_neg (by simp), if_neg hn]
+  rw [add_eq st]
   simp only [tabGet_tabArr]
   rfl
 
@@ -65,8 +55,8 @@ theorem peelRound_eq (G : GraphOK H) (hst : ∀ s, stabs s = true → s < H.leng
 theorem edge_inj (G : GraphOK H) (T : TreeOK H stabs qubits root S0) {p c p' c' : Nat}
     (h : S0 p c = true) (h' : S0 p' c' = true)
     (he : eOf H stabs qubits p c = eOf H stabs qubits p' c') : c = c' := by
-  have e1 := (edge_spec G T h).2.2
-  have e2 := (edge_spec G T h').2.2
+  have e1 := (edge_spec G T h).2
+  have e2 := (edge_spec G T h').2
   rw [← he] at e2
   have hc' : c' = p ∨ c' = c := (e1 c').mp ((e2 c').mpr (Or.inr rfl))
   have hp' : p' = p ∨ p' = c := (e1 p').mp ((e2 p').mpr (Or.inl rfl))
@@ -78,15 +68,6 @@ theorem edge_inj (G : GraphOK H) (T : TreeOK H stabs qubits root S0) {p c p' c' 
       obtain ⟨lv, B, hlv⟩ := T.lv
       have := (hlv _ _ h).1; have := (hlv _ _ h').1; omega
   · exact hc'.symm
-
-/-- an element of the correction list is the edge qubit of the tree edge it was added for -/
-theorem corr_is_edge (G : GraphOK H) (T : TreeOK H stabs qubits root S0) {p c q : Nat}
-    (h : S0 p c = true) (hq : adjq H stabs qubits p c q = true) : q = eOf H stabs qubits p c := by
-  have hf := (edge_spec G T h).1
-  have hq' := (adjq_true H stabs qubits p c q).mp hq
-  have : q ∈ (List.range (ncols H)).filter (fun q => adjq H stabs qubits p c q) := by
-    rw [mem_filter_range]; exact ⟨(G.inRange p q hq'.1).2, hq⟩
-  rw [hf] at this; simpa using this
 
 /-- no leaf is the parent of a leaf -/
 theorem leaf_not_parent (hst : ∀ s, stabs s = true → s < H.length)
@@ -208,7 +189,7 @@ theorem PInv_next (G : GraphOK H) (hst : ∀ s, stabs s = true → s < H.length)
           (st.syn c && decide (s = c))) := by
       apply countP_congr'
       intro c hc
-      have hspec := (edge_spec G T (hpar c hc)).2.2 s
+      have hspec := (edge_spec G T (hpar c hc)).2 s
       simp only [Function.comp]
       cases hh : hb H s (eOf H stabs qubits (parOf H.length S0 c) c)
       · have : ¬ (s = parOf H.length S0 c ∨ s = c) := fun h => by
@@ -288,8 +269,7 @@ theorem PInv_next (G : GraphOK H) (hst : ∀ s, stabs s = true → s < H.length)
       obtain ⟨c, hc, rfl⟩ := List.mem_map.mp hq'
       have hcl := (List.mem_filter.mp hc).1
       obtain ⟨p1, c1, h1, hal1, hadj⟩ := I.corr_removed _ hq
-      have := corr_is_edge G T h1 hadj
-      have := edge_inj G T (hpar c hcl) h1 this
+      have := edge_inj G T (hpar c hcl) h1 hadj
       subst this
       rw [leaf_alive I hcl] at hal1; exact absurd hal1 (by simp)
   · -- corr_removed
@@ -300,7 +280,7 @@ theorem PInv_next (G : GraphOK H) (hst : ∀ s, stabs s = true → s < H.length)
       exact ⟨p1, c1, h1, by simp [hal1], hadj⟩
     · obtain ⟨c, hc, rfl⟩ := List.mem_map.mp hq
       have hcl := (List.mem_filter.mp hc).1
-      exact ⟨_, c, hpar c hcl, by simp [hcl], (edge_spec G T (hpar c hcl)).2.1⟩
+      exact ⟨_, c, hpar c hcl, by simp [hcl], rfl⟩
 
 end
 
